@@ -514,14 +514,17 @@ def run_bounded(ctx):
     with tmpdir("verif-c06-") as root:
         D.build_all(fp, root, DATASETS)
         tasks = [(root, n, ctx.tier) for n in DATASETS] + [(root, "foreign:" + f, ctx.tier) for f in FOREIGN]
-        with cf.ProcessPoolExecutor(max_workers=min(16, os.cpu_count() or 4)) as ex:
-            results = list(ex.map(run_dataset, tasks))
+        from runtime.harness import robust_map, WorkerDied
+        results = robust_map(run_dataset, tasks, min(16, os.cpu_count() or 4))
+        for k, r in enumerate(results):
+            if isinstance(r, WorkerDied):      # the real library killed the process: a failing case, not a checker crash
+                results[k] = [(G, {"ds": tasks[k][1], "kind": "process died"}, False, r.what(), True, None)]
     results.append(run_index_views(fp))
     for res in results:
         for group, feats, ok, what, nontrivial, rp in res:
             snip = None
             if not ok:
-                snip = _snippet_idx(rp) if group == G_IDX else _snippet(*rp)
+                snip = None if rp is None else (_snippet_idx(rp) if group == G_IDX else _snippet(*rp))
             with Case(ctx, group, feats, snippet=snip, nontrivial=nontrivial, contract=CONTRACT) as c:
                 if not ok:
                     c.fail(what)
